@@ -90,7 +90,49 @@ pub fn check_case_x<S: Src>(s: &mut S, nwalls: usize, nwins: usize, ntbs: usize,
     std::mem::forget(ws);
 }
 
+/// One wall, ONE symbolic link (the other two concretely valid): at most one warning, read back at position 0.
+/// Small enough for a trace to be extracted when it fails (the all-links harnesses need > 48 GB for that).
+fn one_link_case<S: Src>(s: &mut S, which: u8) {
+    let mut m = Model::default();
+    m.spaces.push(Space { id: uid(1), name: String::new(), multiplier: 1.0, kind: SpaceType::CONDITIONED, inside_tenv: true, height: 3.0, z: 0.0, loads: None, thermostat: None, n_v: None, illuminance: None });
+    m.spaces.push(Space { id: uid(2), name: String::new(), multiplier: 1.0, kind: SpaceType::CONDITIONED, inside_tenv: true, height: 3.0, z: 0.0, loads: None, thermostat: None, n_v: None, illuminance: None });
+    m.cons.wallcons.push(WallCons { id: uid(11), name: String::new(), layers: Vec::new(), absorptance: 0.5 });
+    let (l, ok) = if which == 1 { link(s, uid(11), uid(11)) } else { link(s, uid(1), uid(2)) };
+    let has_next = which != 2 || s.bool();
+    let w = Wall { id: uid(31), name: String::new(), bounds: any_bounds(s),
+        cons: if which == 1 { l } else { uid(11) },
+        space: if which == 0 { l } else { uid(1) },
+        next_to: if which == 2 { if has_next { Some(l) } else { None } } else { Some(uid(2)) },
+        geometry: WallGeom::default() };
+    m.walls.push(w);
+    let ws = check(&m);
+    let exp = (has_next || which != 2) && !ok;
+    cover!(exp, "the link is broken");
+    cover!(!exp, "closed model");
+    assert!(ws.len() == exp as usize, "C15:exactly one warning for a broken wall link, none for a closed model");
+    if ws.len() > 0 {
+        assert!(ws[0].level == WarningLevel::WARNING && ws[0].id.map(|x| x.as_u128()) == Some(31), "C15:the warning carries the wall's id at WARNING level");
+    }
+    std::mem::forget(m);
+    std::mem::forget(ws);
+}
+
 harnesses! {
+    /// wall -> space link symbolic
+    #[kani::unwind(5)]
+    #[kani::stub(alloc::fmt::format, crate::stubs::fmt_stub)]
+    fn check_wall_space(s) { one_link_case(s, 0) }
+
+    /// wall -> construction link symbolic
+    #[kani::unwind(5)]
+    #[kani::stub(alloc::fmt::format, crate::stubs::fmt_stub)]
+    fn check_wall_cons(s) { one_link_case(s, 1) }
+
+    /// wall -> adjacent space link symbolic (none / valid a / valid b / nil / absent)
+    #[kani::unwind(5)]
+    #[kani::stub(alloc::fmt::format, crate::stubs::fmt_stub)]
+    fn check_wall_next(s) { one_link_case(s, 2) }
+
     /// 1 wall, all three links symbolic: exact count, and the FIRST warning (concrete position 0) carries
     /// the wall's id at WARNING level.  Reading back warnings at symbolic positions after three conditional
     /// pushes exhausts the solver (73 M variables measured), so later positions are covered by the count only.
